@@ -220,6 +220,7 @@ type Reply struct {
 	Leaked     int            `json:"leaked"`
 	Rechecked  int            `json:"rechecked"`
 	EngineErr  string         `json:"engine_err"`
+	Nondet     []string       `json:"nondet"` // executions that did not reproduce (pruned with their subtrees)
 	Cut        bool           `json:"cut"`
 	MaxEnabled int            `json:"max_enabled"`
 	Sample     *Replay        `json:"sample"`
@@ -355,6 +356,12 @@ func (w *workerState) run(task Task) Reply {
 		}
 		w.note(task.Scenario, prefix)
 		r := Execute(w.t, sc, prefix)
+		if strings.HasPrefix(r.EngineErr, "replay diverged at decision") && len(rep.Nondet) < 16 {
+			// the prefix was recorded from a real execution and does not replay: the implementation resolved
+			// something at random on the way (unowned nondeterminism); this subtree is left out
+			rep.Nondet = append(rep.Nondet, fmt.Sprintf("%s\n  scenario=%s prefix=%v", r.EngineErr, task.Scenario, prefix))
+			return
+		}
 		if r.EngineErr != "" {
 			rep.EngineErr = fmt.Sprintf("%s\n  scenario=%s prefix=%v", r.EngineErr, task.Scenario, prefix)
 			return
@@ -396,7 +403,12 @@ func (w *workerState) run(task Task) Reply {
 				}
 			}
 			if !ok {
-				rep.EngineErr = fmt.Sprintf("NONDETERMINISM: re-execution differs\n  scenario=%s choices=%v\n  first=%s\n  second=%s %s", task.Scenario, r.Choices, obsOf(r), obsOf(r2), r2.EngineErr)
+				msg := fmt.Sprintf("NONDETERMINISM: re-execution differs\n  scenario=%s choices=%v\n  first=%s\n  second=%s %s", task.Scenario, r.Choices, obsOf(r), obsOf(r2), r2.EngineErr)
+				if len(rep.Nondet) < 16 {
+					rep.Nondet = append(rep.Nondet, msg) // this execution's subtree is left out; its siblings go on
+				} else {
+					rep.EngineErr = msg
+				}
 				return
 			}
 		}
@@ -774,6 +786,9 @@ func (e *Explorer) runTasksCB(initial []Task, nw int, onReply func(t Task, r *Re
 					e.merge(&rep)
 					if onReply != nil {
 						onReply(task, &rep)
+					}
+					for _, m := range rep.Nondet {
+						e.Check.Nondeterminism(m)
 					}
 					if rep.EngineErr != "" {
 						e.Check.EngineError(rep.EngineErr)
